@@ -444,6 +444,14 @@ class G:
         else:
             last = self.expr(U, cfg.max_depth - 1)
         init = [("store", v, ("int", 0) if v.ttype == U else ("bytes", b"")) for v in self.pre_init.get(None, [])]
+        if init and cfg.exits and r.random() < 0.25:
+            # a guard that leaves the routine on one arm while the sibling arm is the ONLY initialisation of a variable:
+            # everything after the conditional is reached through the storing arm only
+            self.note("guarded initialisation")
+            j = r.randrange(len(init))
+            leave = r.choice([("reject",), ("err",), ("approve",), ("ret", ("int", 1))])
+            cond = ("op", "Gt", [("txn", "NumAppArgs"), ("int", r.choice([5, 9]))])
+            init[j] = ("if", cond, leave, init[j]) if r.random() < 0.6 else ("if", ("op", "Not", [cond]), init[j], leave)
         main = ("seq", setup_call + init + body + [last])
         return Program(cfg.mode, main, self.vars, self.subs, self.dvars, self.mvars)
 
